@@ -229,6 +229,7 @@ def walk_rule(chk, db, rule_id, npts=40):
     exactly the ancestors at which the walk stops"""
     pe = PEval(db)
     GP = {f.d.get("targs", "").rsplit("::", 1)[-1]: f for f in db.fns(RL + "getParent", [HPP]) if f.d.get("targs")}
+    GSP = {f.d.get("targs", "").rsplit("::", 1)[-1]: f for f in db.fns(RL + "getStepParent", [HPP]) if f.d.get("targs")}
     n_ok = 0
     for f in [g for g in db.fns(RL + "van_matrix", [HPP]) if g.d.get("targs")]:
         r = f.d["targs"].rsplit("::", 1)[-1]
@@ -302,7 +303,29 @@ def walk_rule(chk, db, rule_id, npts=40):
                             v = const_val(a[2])
                             if v is not None:
                                 explicit.add(int(v))
-                    stop_anc = {k for k in stop if k < first_row} | set(range(0, first_row)) - {k for k in range(0, first_row) if pe.cond(w.get("cond"), {dad["did"]: sympy.Integer(k)}, f, 0)[0]}
+                    # every index that is an ancestor of some row (closure of getParent / getStepParent) and at which the walk stops
+                    closure = set()
+                    try:
+                        for K in range(first_row, npts):
+                            for G in (GP, GSP):
+                                if r in G:
+                                    q = int(pe.call(G[r], [sympy.Integer(K)]))
+                                    if q >= 0:
+                                        closure.add(q)
+                        grew = True
+                        while grew:
+                            grew = False
+                            for K in list(closure):
+                                for G in (GP, GSP):
+                                    if r in G:
+                                        q = int(pe.call(G[r], [sympy.Integer(K)]))
+                                        if q >= 0 and q not in closure:
+                                            closure.add(q)
+                                            grew = True
+                        stop_anc = {k for k in closure if stops(k)}
+                    except NotClosedForm as e:
+                        problems.append("ancestor closure not a closed form: %s" % e)
+                        stop_anc = explicit
                     if r != "pwc" and explicit != stop_anc:
                         problems.append("columns pushed explicitly %s differ from the ancestors at which the walk stops %s" % (sorted(explicit), sorted(stop_anc)))
             n_ok += 1
